@@ -455,6 +455,7 @@ type Conn struct {
 	Delivered int64 // bytes delivered to this endpoint
 	ReadN     int64 // bytes consumed by Read
 	rx        []byte
+	WLog      []int // Record mode: size of every Write call on this endpoint
 	ClosedAt  time.Duration
 	OpenedAt  time.Duration
 	EOFAt     time.Duration
@@ -521,6 +522,9 @@ func (c *Conn) Write(b []byte) (int, error) {
 	c.n.mu.Lock()
 	defer c.n.mu.Unlock()
 	written := 0
+	if c.n.Record {
+		c.WLog = append(c.WLog, len(b))
+	}
 	for {
 		if c.closed {
 			return written, opErr("write", c.local, c.remote, net.ErrClosed)
@@ -731,14 +735,14 @@ func (c *Conn) Rx() []byte {
 
 // State is a snapshot for ledgers.
 type ConnState struct {
-	ID                                string
-	Dialer                            bool
-	Local, Remote                     string
-	Closed, WClosed, EOF, Reset       bool
-	Sent, Delivered, ReadN            int64
-	InFlight, Unread                  int
-	OpenedAt, ClosedAt, EOFAt         time.Duration
-	FinQueued, RstQueued              bool
+	ID                          string
+	Dialer                      bool
+	Local, Remote               string
+	Closed, WClosed, EOF, Reset bool
+	Sent, Delivered, ReadN      int64
+	InFlight, Unread            int
+	OpenedAt, ClosedAt, EOFAt   time.Duration
+	FinQueued, RstQueued        bool
 }
 
 func (c *Conn) stateLocked() ConnState {
